@@ -624,6 +624,21 @@ func (g *jsgen) classExpr(d int) string {
 			b.WriteString(st + g.propKey(d) + "; ")
 		}
 	}
+	// boundary class "member order": the code emitted for a member depends on what the previous member left on the
+	// operand stack (class function, prototype copy, static-field initialiser). One member of each layout category —
+	// prototype / static × plain / computed key × method / accessor / field — in a random order, with trivial bodies,
+	// so that every adjacent pair of categories turns up within a few classes.
+	if g.p(30) {
+		canon := []string{"m1() {}", "static s1() {}", "[o.x] = 1;", "static [o.y] = 2;", "get [\"k\" + 1]() { return 1; }",
+			"static set [arr[0]](v) {}", "f1 = 3;", "static f2 = 4;", "static [f] () {}", "*[g]() {}"}
+		for i := len(canon) - 1; i > 0; i-- {
+			j := g.n(i + 1)
+			canon[i], canon[j] = canon[j], canon[i]
+		}
+		for _, m := range canon[:3+g.n(len(canon)-2)] {
+			b.WriteString(m + " ")
+		}
+	}
 	b.WriteString("}")
 	return b.String()
 }
